@@ -15,6 +15,7 @@ import (
 	"github.com/Oneledger/protocol/data/balance"
 	"github.com/Oneledger/protocol/data/chain"
 	"github.com/Oneledger/protocol/data/delegation"
+	ethdata "github.com/Oneledger/protocol/data/ethereum"
 	"github.com/Oneledger/protocol/data/evidence"
 	"github.com/Oneledger/protocol/data/fees"
 	"github.com/Oneledger/protocol/data/governance"
@@ -66,14 +67,24 @@ type Params struct {
 	GenesisUnix int64 `json:"genesis_unix"`
 
 	// pre-loaded state (as a save_state dump would contain)
-	PreDelegations []PreDeleg `json:"pre_delegations,omitempty"`
-	PreEthBalances []PreBal   `json:"pre_eth_balances,omitempty"`
-	EthCap         string     `json:"eth_cap,omitempty"`    // total wrapped ether that may be locked, in wei ("" = 2 ether)
-	PreMature      []PreMat   `json:"pre_mature,omitempty"` // pending unstake maturities carried over by a state dump
+	PreDelegations []PreDeleg   `json:"pre_delegations,omitempty"`
+	PreEthBalances []PreBal     `json:"pre_eth_balances,omitempty"`
+	PreTrackers    []PreTracker `json:"pre_trackers,omitempty"` // only C15 draws them
+	EthCap         string       `json:"eth_cap,omitempty"`      // total wrapped ether that may be locked, in wei ("" = 2 ether)
+	PreMature      []PreMat     `json:"pre_mature,omitempty"`   // pending unstake maturities carried over by a state dump
 	// governance proposals carried over by a state dump (see genesis_proposals.go); only C14 draws them
 	PreProposals []PreProposal `json:"pre_proposals,omitempty"`
 	// validator-reward state carried over by a state dump (see prerewards.go); nil = empty; only C13 draws it
 	PreRewards *PreRewards `json:"pre_rewards,omitempty"`
+}
+
+// PreTracker is an ethereum lock tracker carried over by a state dump (save_state writes the ongoing, failed and passed
+// stores; the block end archives decided trackers "cleaned": type, state and name only).
+type PreTracker struct {
+	Raw     []byte `json:"raw"` // the signed ethereum transaction the tracker stands for
+	Failed  bool   `json:"failed,omitempty"`
+	Owner   int    `json:"owner"`             // user index of the account that submitted the lock
+	Cleaned bool   `json:"cleaned,omitempty"` // as archived by the block end
 }
 
 type PreMat struct {
@@ -320,6 +331,7 @@ func BuildGenesis(p Params) *Genesis {
 		Fees:          []consensus.BalanceState{},
 		NetDelegators: netDeleg,
 		Proposals:     GenesisProposals(p, u),
+		Trackers:      genesisTrackers(p, u, witness),
 		Governance: governance.GovernanceState{
 			FeeOption: feeOpt,
 			ETHCDOption: ethchain.ChainDriverOption{
@@ -387,4 +399,24 @@ func ethCap(p Params) string {
 		return p.EthCap
 	}
 	return "2000000000000000000"
+}
+
+func genesisTrackers(p Params, u *Universe, witness []consensus.Stake) []consensus.Tracker {
+	out := []consensus.Tracker{}
+	for _, pt := range p.PreTrackers {
+		t := consensus.Tracker{Type: ethdata.ProcessTypeLock, State: ethdata.Released, TrackerName: ethcmn.BytesToHash(pt.Raw)}
+		if pt.Failed {
+			t.State = ethdata.Failed
+		}
+		if !pt.Cleaned {
+			t.SignedETHTx = pt.Raw
+			t.ProcessOwner = u.Users[pt.Owner%len(u.Users)].Addr
+			for _, w := range witness {
+				t.Witnesses = append(t.Witnesses, w.ValidatorAddress)
+			}
+			t.FinalityVotes = make([]ethdata.Vote, len(t.Witnesses))
+		}
+		out = append(out, t)
+	}
+	return out
 }
